@@ -1,5 +1,6 @@
 import ModbusModel.Model.Pdu
 import ModbusModel.Lemmas.Bytes
+import ModbusModel.Lemmas.SlaveParse
 /-
   C19 – Function codes, exception codes and slave ids convert to numbers without loss.
 -/
@@ -75,11 +76,61 @@ theorem slave_display : ∀ id : UInt8,
       = toString id.toNat ++ " (0x" ++ String.ofList [hexUpper (id.toNat / 16), hexUpper (id.toNat % 16)] ++ ")" := by
   intro id; rfl
 
+/-- **slave ids parse from decimal**: every non-empty string of decimal digits – any length,
+    leading zeros included – parses to its value if that fits a byte and is rejected otherwise -/
+theorem slave_parse_decimal (ds : List Nat) (hne : ds ≠ []) (hds : ∀ d ∈ ds, d < 10) :
+    Slave.fromStr (ds.map decChar)
+      = (if valOf 10 ds ≤ 255 then some (UInt8.ofNat (valOf 10 ds)) else none) := by
+  have hp := parseU8Radix_digits 10 (by omega) decDigit decChar decDigit_decChar ds hne hds
+  unfold Slave.fromStr
+  rw [hp]
+  by_cases h : valOf 10 ds ≤ 255
+  · simp [h]
+  · simp only [h, if_false]
+    -- the hexadecimal fallback needs the prefix "0x": a digit string has none
+    split
+    · rename_i stripped heq
+      match ds, hds with
+      | [_], _ => simp at heq
+      | a :: b :: rest, hds =>
+        simp only [List.map_cons, List.cons.injEq] at heq
+        have hb : b < 10 := hds b (by simp)
+        have : b = 0 ∨ b = 1 ∨ b = 2 ∨ b = 3 ∨ b = 4 ∨ b = 5 ∨ b = 6 ∨ b = 7 ∨ b = 8 ∨ b = 9 := by omega
+        rcases this with h | h | h | h | h | h | h | h | h | h <;> subst h <;> exact absurd heq.2.1 (by decide)
+    · rfl
+
+/-- **… and from 0x-prefixed hexadecimal** (lower or upper case digits) **to the same value** -/
+theorem slave_parse_hex (u : Bool) (ds : List Nat) (hne : ds ≠ []) (hds : ∀ d ∈ ds, d < 16) :
+    Slave.fromStr ('0' :: 'x' :: ds.map (hexChar u))
+      = (if valOf 16 ds ≤ 255 then some (UInt8.ofNat (valOf 16 ds)) else none) := by
+  have hp := parseU8Radix_digits 16 (by omega) hexDigit (hexChar u) (hexDigit_hexChar u) ds hne hds
+  have hdec : parseU8Radix 10 decDigit ('0' :: 'x' :: ds.map (hexChar u)) = none := by
+    rw [parseU8Radix_cons 10 decDigit '0' _ (by decide)]
+    have : decDigit '0' = some 0 := by decide
+    have hx : decDigit 'x' = none := by decide
+    simp [parseU8Radix.go, this, hx]
+  unfold Slave.fromStr
+  rw [hdec]
+  exact hp
+
+/-- both spellings of one value give the same id; values above 255 are rejected in both -/
+theorem slave_parse_same_value (u : Bool) (dec hex : List Nat) (hd : dec ≠ []) (hh : hex ≠ [])
+    (hdd : ∀ d ∈ dec, d < 10) (hhd : ∀ d ∈ hex, d < 16) (hv : valOf 10 dec = valOf 16 hex) :
+    Slave.fromStr (dec.map decChar) = Slave.fromStr ('0' :: 'x' :: hex.map (hexChar u))
+    ∧ (255 < valOf 10 dec → Slave.fromStr (dec.map decChar) = none) := by
+  rw [slave_parse_decimal dec hd hdd, slave_parse_hex u hex hh hhd, hv]
+  refine ⟨rfl, fun h => ?_⟩
+  have : ¬ valOf 16 hex ≤ 255 := by omega
+  simp [this]
+
 -- non-vacuity / sanity: concrete instances
 example : FunctionCode.new 0x2B = .encapsulatedInterfaceTransport := by decide
 example : FunctionCode.new 0x41 = .custom 0x41 := by decide
 example : Slave.display 123 = "123 (0x7B)" := by decide
 example : Slave.fromStr "0x7b".toList = some 123 := by decide
 example : Slave.fromStr "256".toList = none := by decide
+
+example : [2, 5, 5].map decChar = "255".toList ∧ valOf 10 [2, 5, 5] = 255 := by decide
+example : [15, 15].map (hexChar true) = "FF".toList ∧ [7, 11].map (hexChar false) = "7b".toList := by decide
 
 end Modbus.Props.C19
